@@ -199,6 +199,7 @@ class InlineParser(Parser[InlineState]):
             }
         else:
             new_state.in_link = True
+            new_state.in_link_text = True
             token = {
                 "type": "link",
                 "children": self.render(new_state),
@@ -323,7 +324,8 @@ class InlineParser(Parser[InlineState]):
         if html.startswith(("<a ", "<a>", "<A ", "<A>")):
             state.in_link = True
         elif html.startswith(("</a ", "</a>", "</A ", "</A>")):
-            state.in_link = False
+            # a raw closing tag ends a raw anchor, not the text of a Markdown link
+            state.in_link = state.in_link_text
         return end_pos
 
     def process_text(self, text: str, state: InlineState) -> None:
